@@ -647,9 +647,15 @@ def backoff_iter(start, stop, count=None, factor=2.0, jitter=False):
     if stop < start:
         raise ValueError('expected stop >= start, not %r' % stop)
     if count is None:
-        denom = start if start else 1
-        count = 1 + math.ceil(math.log(stop/denom, factor))
-        count = count if start else count + 1
+        # number of values up to and including *stop*, found by running
+        # the recurrence of the loop below (a float log can be off by one)
+        count, cur = 1, start
+        while cur < stop:
+            nxt = cur * factor if cur else 1.0
+            if not nxt > cur:
+                raise ValueError('factor %r does not reach stop from %r,'
+                                 ' pass a count' % (factor, cur))
+            count, cur = count + 1, nxt
     if count != 'repeat' and count < 0:
         raise ValueError('count must be positive or "repeat", not %r' % count)
     if jitter:
